@@ -51,6 +51,9 @@ def join(kinds: List[str]) -> str:
     return OTHER
 
 
+DESCRIPTOR_CLASSES = {"Field", "FlattenedField", "PatternField", "AdditionalField", "Property", "NormalField", "SimpleField", "ComplexField", "IdentityField", "SerializedField"}
+
+
 class AliasScope:
     """Classification inside one function (its nested functions share the
     enclosing function's bindings, as closures do)."""
@@ -62,6 +65,8 @@ class AliasScope:
         self.assign: Dict[str, List[ast.AST]] = {}
         self.elem_of: Dict[str, List[ast.AST]] = {}  # loop / comprehension variables -> iterables
         self.elem_pos: Dict[str, Tuple[int, int]] = {}
+        self.local_iter: Dict[int, Tuple[ast.AST, int, int]] = {}  # id(Name use inside a comprehension) -> its generator
+        self._outside_cache: Dict[int, Set[str]] = {}
         self.inserts: Dict[str, List[ast.AST]] = {}  # container var -> inserted value expressions
         self.key_inserts: Dict[str, List[ast.AST]] = {}
         self.params: Set[str] = set()
@@ -87,14 +92,33 @@ class AliasScope:
             elif isinstance(n, (ast.For, ast.AsyncFor)):
                 self._bind_loop(n.target, n.iter)
             elif isinstance(n, (ast.ListComp, ast.SetComp, ast.GeneratorExp, ast.DictComp)):
+                # comprehension variables are local to the comprehension: uses inside it resolve to its own generator
                 for g in n.generators:
-                    self._bind_loop(g.target, g.iter)
+                    tg = g.target
+                    names = [(tg, 0, 1)] if isinstance(tg, ast.Name) else [(t, i, len(tg.elts)) for i, t in enumerate(tg.elts) if isinstance(t, ast.Name)] if isinstance(tg, (ast.Tuple, ast.List)) else []
+                    for t, i, k in names:
+                        for x in ast.walk(n):
+                            if isinstance(x, ast.Name) and x.id == t.id and isinstance(x.ctx, ast.Load):
+                                self.local_iter.setdefault(id(x), (g.iter, i, k))
+                        # names never bound elsewhere keep the function-wide view too (used by key / element queries)
+                        self._bind_loop(t, g.iter) if t.id not in self._loop_vars_outside(fn) else None
             elif isinstance(n, ast.Call) and isinstance(n.func, ast.Attribute) and n.func.attr in ("add", "append", "update", "extend", "setdefault"):
                 base = n.func.value
                 while isinstance(base, ast.Subscript):
                     base = base.value
                 if isinstance(base, ast.Name) and n.args:
                     self.inserts.setdefault(base.id, []).append(n.args[-1])
+
+    def _loop_vars_outside(self, fn) -> Set[str]:
+        """names bound by `for` statements (not comprehensions) or assignments of this function"""
+        k = id(fn)
+        if k not in self._outside_cache:
+            out: Set[str] = set()
+            for n in walk_no_nested(fn, include_lambda=True):
+                if isinstance(n, (ast.For, ast.AsyncFor)):
+                    out |= {x.id for x in ast.walk(n.target) if isinstance(x, ast.Name)}
+            self._outside_cache[k] = out
+        return self._outside_cache[k]
 
     def _bind(self, target, value):
         if isinstance(target, ast.Name):
@@ -154,6 +178,9 @@ class AliasScope:
         if isinstance(e, ast.Starred):
             return self.classify(e.value, seen)
         if isinstance(e, ast.Name):
+            if id(e) in self.local_iter:
+                it, pos, n_ = self.local_iter[id(e)]
+                return self.element_kind(it, e.id, seen | {e.id}, (pos, n_))
             if e.id in seen:
                 return OTHER
             seen = seen | {e.id}
@@ -258,14 +285,21 @@ class AliasScope:
         """`p.alias` where p iterates over the schema `properties` list (Property
         objects hold an AliasedStr)."""
         if isinstance(recv, ast.Name):
-            for it in self.elem_of.get(recv.id, []):
+            its = [self.local_iter[id(recv)][0]] if id(recv) in self.local_iter else self.elem_of.get(recv.id, [])
+            for it in its:
                 t = norm(it)
                 if "properties" in t and "pattern" not in t:
                     return True
+                # elements of a local list that only ever receives descriptor objects (Field(...), ...): their
+                # `alias` slot is the already aliased key (its construction is itself a checked sink)
+                if isinstance(it, ast.Name):
+                    ins = self.inserts.get(it.id, [])
+                    if ins and all(isinstance(v, ast.Call) and (dotted(v.func) or "").split(".")[-1] in DESCRIPTOR_CLASSES for v in ins) and not [v for v in self.assign.get(it.id, []) if not (isinstance(v, (ast.List, ast.Tuple)) and not v.elts)]:
+                        return True
         return False
 
-    def element_kind(self, it, var: str, seen) -> str:
-        pos, n = self.elem_pos.get(var, (0, 1))
+    def element_kind(self, it, var: str, seen, pos_n=None) -> str:
+        pos, n = pos_n or self.elem_pos.get(var, (0, 1))
         # for k, v in X.items(): k -> key kind, v -> value kind
         if isinstance(it, ast.Call) and isinstance(it.func, ast.Attribute) and it.func.attr == "items" and n == 2:
             base = it.func.value
